@@ -93,7 +93,7 @@ def history(rng, tier, refs=False, reads=False, flavour="c10"):
     nops = 3 + rng.below(6 if tier == "quick" else 10)
     for _ in range(nops):
         k = rng.wpick([(3, "merge-embed"), (2, "merge-reg"), (2, "new-embed"), (3, "set"), (3, "remove"), (2, "child"), (1, "setchild"),
-                       (2 if reads else 0, "read"), (1, "diff"), (1, "merge-plain"), (1, "new")])
+                       (2 if reads else 0, "read"), (1, "diff"), (1, "merge-plain"), (1, "new"), (3 if flavour == "c05" else 0, "rename")])
         r = rng.pick(live)
         pol = rng.pick([[], [], [opt("Append")], [opt("Prepend")], [opt("Replace")], [opt("ReplaceArr")]])
         if refs and rng.chance(0.35):
@@ -144,6 +144,26 @@ def history(rng, tier, refs=False, reads=False, flavour="c10"):
                 sg.join(ch, r); attached.add(ch)
                 ops.append({"op": "setchild", "r": r, "name": rng.pick(["k", "a", "l", "a.b", "l.1"]), "idx": rng.pick([-1, -1, 0, 1, 3]), "child": ch,
                             "opts": [opt("PathSep", ".")]})
+        elif k == "rename":
+            # a child moved to another name inside its own config (Child, SetChild under the new name, Remove the old one),
+            # later embedded somewhere: what is copied is the config as it is now
+            tops = [p[0] for p in paths_of(shapes.get(r)) if len(p) == 1 and not p[0].isdigit()]
+            free = [x for x in range(NREGS) if x != r and x not in live] or [x for x in range(NREGS) if x != r]
+            if tops and free:
+                old_nm = rng.pick(tops); to = rng.pick(free); new_nm = rng.pick(["moved", "nn", "k2"])
+                ops.append({"op": "child", "r": r, "name": old_nm, "idx": -1, "to": to, "opts": copts})
+                ops.append({"op": "setchild", "r": r, "name": new_nm, "idx": -1, "child": to, "opts": [opt("PathSep", ".")]})
+                if rng.chance(0.7):
+                    ops.append({"op": "remove", "r": r, "name": old_nm, "idx": -1, "opts": [opt("PathSep", ".")]})
+                sg.fresh(to); sg.join(to, r); attached.add(to)
+                if to not in live: live.append(to)
+                shapes[to] = None
+                dest = rng.pick([x for x in range(NREGS) if x not in (r, to)])
+                emb = M([(rng.pick(["e1", "e2"]), {"reg": r}), ("z", U(1))]) if rng.chance(0.7) else M([("w", A([{"reg": r}]))])
+                ops.append({"op": "new", "r": dest, "from": emb, "opts": copts})
+                sg.fresh(dest); attached.discard(dest)
+                if dest not in live: live.append(dest)
+                shapes[dest] = None
         elif k == "read":
             what = rng.pick(["view", "keys", "has", "count", "get", "typed", "childview", "diffself"])
             o = {"op": "read", "r": r, "what": what, "name": rng.pick(names + ["a", "l.0"]), "idx": rng.pick([-1, -1, 0]), "opts": copts}
@@ -153,7 +173,7 @@ def history(rng, tier, refs=False, reads=False, flavour="c10"):
         elif k == "diff":
             ops.append({"op": "diff", "r": r, "r2": rng.pick(live), "opts": [opt("PathSep", ".")]})
     tags = sorted(set(o["op"] + ("-emb" if has_reg(o.get("from")) else "") for o in ops))
-    return {"k": "forest", "regs": NREGS, "ops": ops, "_tag": "forest/" + flavour, "_nt": any("emb" in t or t in ("remove", "setchild", "child") for t in tags),
+    return {"k": "forest", "regs": NREGS, "ops": ops, **({"reattach": True} if flavour == "c05" else {}), "_tag": "forest/" + flavour, "_nt": any("emb" in t or t in ("remove", "setchild", "child") for t in tags),
             "_sig": "%s|%s|%d" % (flavour, "+".join(tags), len(ops))}
 
 
@@ -314,6 +334,14 @@ def analyze(case, impl):
                 out.append(("C11", "step %d: the read operation %s on r%d changed r%d: %s" % (si, op.get("what", kind), r, j, first_diff(prev[j], regs[j])), si))
             elif not groups.same(j, r) and j not in srcs:
                 out.append(("C10", "step %d: %s on r%d is visible through the unrelated config r%d: %s" % (si, kind, r, j, first_diff(prev[j], regs[j])), si))
+        # ---- C05: a config embedded in the value given to NewFrom shows up with exactly its current content
+        if kind == "new" and not failed and regs[r] is not None and not any(o2.get("o") == "PathSep" and False for o2 in op.get("opts", [])):
+            for pth, j in embedded_positions(op.get("from")):
+                if prev[j] is None:
+                    continue
+                hit = node_at(regs[r]["fp"], pth)
+                if content(hit) != content(prev[j]["fp"]):
+                    out.append(("C05", "step %d: config r%d embedded at '%s' arrives as %s, it holds %s" % (si, j, ".".join(pth), json.dumps(content(hit))[:200], json.dumps(content(prev[j]["fp"]))[:200]), si))
         # ---- C15: stored positions describe the structure
         # nodes attached at two positions at once (SetChild of an attached child: known finding D20) are outside the rule,
         # except in the known finding's own witness
@@ -385,6 +413,49 @@ def first_diff(a, b, path="$"):
             if x != y:
                 return first_diff(x, y, "%s[%d]" % (path, i))
     return "%s: %s -> %s" % (path, json.dumps(a)[:60], json.dumps(b)[:60])
+
+
+def embedded_positions(t, path=()):
+    """[(path, register)] of the configs embedded in a source value (through maps, structs and lists; keys without dots)"""
+    out = []
+    if isinstance(t, dict):
+        if "reg" in t:
+            return [(path, int(t["reg"]))]
+        if "m" in t:
+            keys = [k for k, _ in t["m"]]
+            for k, v in t["m"]:
+                if keys.count(k) == 1 and "." not in k and not k.isdigit():
+                    out += embedded_positions(v, path + (k,))
+        elif "st" in t:
+            for _, tag, v in t["st"]:
+                if "." not in tag and not tag.isdigit():
+                    out += embedded_positions(v, path + (tag,))
+        elif "a" in t:
+            for i, v in enumerate(t["a"]):
+                out += embedded_positions(v, path + (str(i),))
+    return out
+
+
+def node_at(n, path):
+    for seg in path:
+        if n is None:
+            return None
+        if seg.isdigit() and n.get("a") is not None and int(seg) < len(n["a"]) and not (n.get("d") or {}).get(seg):
+            n = n["a"][int(seg)]
+        else:
+            n = (n.get("d") or {}).get(seg)
+    return n
+
+
+def content(n):
+    """kinds, values and structure of a fingerprint, without identities and stored contexts"""
+    if n is None:
+        return None
+    out = {"k": n["k"]}
+    if "v" in n: out["v"] = n["v"]
+    if n.get("d"): out["d"] = {k: content(c) for k, c in sorted(n["d"].items())}
+    if n.get("a"): out["a"] = [content(c) for c in n["a"]]
+    return out
 
 
 def oracle_for(pid):
@@ -511,12 +582,12 @@ def fix_candidate(cand, base):
         for key in ("to", "child", "r2"):
             if key in o and not isinstance(o[key], int):
                 return None
-    if not static_ok(cand["ops"], cand.get("regs", NREGS)):
+    if not static_ok(cand["ops"], cand.get("regs", NREGS), allow_reattach=bool(cand.get("reattach"))):
         return None
     return cand
 
 
-def static_ok(ops, n):
+def static_ok(ops, n, allow_reattach=False):
     """the generator's own restrictions, re-checked on shrunk histories: no merge between relatives (the source would
     change under the iteration), no SetChild of a relative (cyclic structure) or of a config that already has a parent
     (known finding D20)"""
@@ -545,7 +616,9 @@ def static_ok(ops, n):
             sg.fresh(o["to"]); sg.join(o["to"], r); attached.add(o["to"])
         elif o["op"] == "setchild":
             ch = o["child"]
-            if sg.same(ch, r) or ch in attached:
+            if (sg.same(ch, r) or ch in attached) and not allow_reattach:
+                return False
+            if allow_reattach and ch == r:
                 return False
             sg.join(ch, r); attached.add(ch)
     return True
